@@ -55,7 +55,10 @@ func qRef(sp *spec, comm []int, gamma float64) float64 {
 	return qUndirectedRef(sp.n, a, comm, gamma)
 }
 
-func checkQ(t *vlib.T, b *built) {
+// checkQ evaluates Q for every set partition; with allGamma for every
+// resolution, otherwise (the two largest spaces in the quick tier) for one
+// resolution per partition, rotating with the partition and graph index.
+func checkQ(t *vlib.T, b *built, allGamma bool, rot int) {
 	sp := b.sp
 	n := sp.n
 	if sp.edges() == 0 && sp.self == 0 {
@@ -70,6 +73,9 @@ func checkQ(t *vlib.T, b *built) {
 	seen := map[string]bool{}
 	for pi, comm := range partitions(n) {
 		for gi, gamma := range resolutions {
+			if !allGamma && (pi+rot)%len(resolutions) != gi {
+				continue
+			}
 			want := qRef(sp, comm, gamma)
 			got := community.Q(b.g, commsOf(b.ids, comm, pi+gi), gamma)
 			t.Count("q_evaluations", 1)
@@ -109,7 +115,7 @@ func genQ(g *vlib.G) {
 		{n: 2, directed: true, weighted: true}, {n: 3, directed: true, weighted: true},
 		{n: 4, directed: true},
 		{n: 5, weighted: true, rotate: true},
-		{n: 4, directed: true, weighted: true, stride: vlib.Pick(g, 4, 1), offset: vlib.Pick(g, 1, 0), rotate: true},
+		{n: 4, directed: true, weighted: true, stride: vlib.Pick(g, 2, 1), offset: vlib.Pick(g, 1, 0), rotate: true},
 		// every node carries the self weight 1 resp. 2 (A_ii of the formula)
 		{n: 2, weighted: true, self: 1}, {n: 3, weighted: true, self: 2}, {n: 4, weighted: true, self: 1},
 		{n: 2, directed: true, weighted: true, self: 2}, {n: 3, directed: true, weighted: true, self: 1},
@@ -117,7 +123,12 @@ func genQ(g *vlib.G) {
 	}
 	for _, s := range spaces {
 		forGraphs(s, s.stride <= 1 && !s.rotate, func(key string, mk func() *built) {
-			g.Case(key, func(t *vlib.T) { checkQ(t, mk()) })
+			allGamma := g.Thorough() || !(s.rotate && s.weighted && s.self == 0)
+			rot := 0
+			for _, c := range []byte(key) {
+				rot += int(c)
+			}
+			g.Case(key, func(t *vlib.T) { checkQ(t, mk(), allGamma, rot) })
 		})
 		if g.Stopped() {
 			return
